@@ -23,17 +23,27 @@ store uses an index outside [0, len) (reads guarded by short-circuit `and`/`or` 
 only counted when evaluated); the kernel then returns (result, ok__).
 
 Second output file coq/Gen/Kernels2.v (KERNELS2, always bounds-checked; Kernels.v stays byte-identical):
-  types  MT (2-d array of elements -> list (list T), row major), tuples of scalars as return type
+  types  MT (2-d array of elements -> list (list T), row major), LB (read-only 1-d bool array), PO (the namedtuple
+         PivOptions, flattened into three element parameters p_fea_tol p_tol_piv p_tol_ratio_diff; `p.field` reads;
+         its definition and defaults in linprog_simplex.py are checked), tuples of scalars as return type
   a[i, j] reads / stores / `a[i, j] op= e` (get2 / set2: an index i < 0 denotes i + size, as in NumPy/Numba;
-         bounds flag inb2: the wrapped index must lie in [0, size)), `nr, nc = a.shape`, `a.shape[0|1]`,
+         bounds flag inb2: the wrapped index must lie in [0, size)), `nr, nc = a.shape`, `a.shape[0|1]`, `a.size`,
          `a[:-1, :]` as a read-only call argument,
+  slice stores `a[:] = v`, `a[lo:hi, lo:hi] = v`, `a[i, lo:] = v` (fill1 / fill2; bounds clipped as in NumPy),
   np.inf (the generated function takes an extra leading parameter `inf_ : T`; module-level float constants
          used as omitted default arguments become extra parameters in the same way),
-  int literals 0 / 1 / -1 in element context (nzero / none_ / nsub nzero none_), `!=` on elements,
-  tuple returns, tuple assignment from a call, default arguments, keyword arguments,
-  calls (as statements `f(..)`, `x = f(..)`, `x, y = f(..)`) to previously generated KERNELS2 kernels: the callee
-         returns (value, arrays it stores into ..., ok__); the caller rebinds the arrays it passed and
-         conjoins the flag.  `return a` of a stored array parameter in a procedure = end of procedure.
+  int literals 0 / 1 / -1 in element context (nzero / none_ / nsub nzero none_), `!=` on elements, unary minus on
+         elements (0 - x), `(a >= 0).all()`, chained comparisons a <= b < c,
+  np.empty(n, dtype=np.int_) for a local work array (zeros; consumers are tied for ANY contents),
+  tuple returns, tuple assignment (also with subscript targets: right-hand sides first, then the targets left to
+         right), default arguments, keyword arguments, python names that are Gallina keywords get a trailing `_`,
+  `if p is None: p = np.empty(..)|np.ones(..)` for an array parameter p=None declared as an array in KERNELS2: dropped
+         (the kernel is translated for the call path where p is supplied; listed in the header comment),
+  `return NT(arr, scalars..)` of the result namedtuple named in KERNELS2 (arr must be a stored array parameter),
+  calls (as statements `f(..)`, `x = f(..)`, `x, y = f(..)`) to previously generated KERNELS2 kernels of the same file
+         or imported by `from .mod import f`: the callee returns (value, arrays it stores into ..., ok__); the caller
+         rebinds the arrays it passed and conjoins the flag.  `return a` / `return (a, b)` of stored array parameters in
+         a procedure = end of procedure.
 """
 import ast, os, sys
 
@@ -85,6 +95,9 @@ KERNELS2 += [
          rtype=("B", "Z", "Z"), fuels={0: "Z.to_nat max_iter"}),
 ]
 KERNELS2 += [
+    dict(cname="initialize_tableau", file=LPS, py="_initialize_tableau",
+         params=[("A_ub", "MT"), ("b_ub", "LT"), ("A_eq", "MT"), ("b_eq", "LT"), ("tableau", "MT"), ("basis", "LZ")],
+         rtype=None, fuels={}),
     dict(cname="set_criterion_row", file=LPS, py="_set_criterion_row",
          params=[("c", "LT"), ("basis", "LZ"), ("tableau", "MT")], rtype=None, fuels={}),
     dict(cname="get_solution", file=LPS, py="get_solution",
@@ -1009,7 +1022,7 @@ class Tr:
 
 
 def generate():
-    parts = ["(* GENERATED by harness/py2coq.py from the current source in %s -- do not edit. *)" % REPO,
+    parts = ["(* GENERATED by harness/py2coq.py from the current source of the repository under check -- do not edit. *)",
              "From Coq Require Import ZArith List Bool.", "From QE Require Import Base.Num.",
              "Import ListNotations.", "Open Scope Z_scope.", "", PRELUDE]
     for cname, file, pyname, ptypes, rtype, fuels, checked in KERNELS:
@@ -1035,7 +1048,7 @@ def module_consts(tree):
 
 
 def generate2():
-    parts = ["(* GENERATED by harness/py2coq.py from the current source in %s -- do not edit. *)" % REPO,
+    parts = ["(* GENERATED by harness/py2coq.py from the current source of the repository under check -- do not edit. *)",
              "From Coq Require Import ZArith List Bool.", "From QE Require Import Base.Num Gen.Kernels.",
              "Import ListNotations.", "Open Scope Z_scope.", "", PRELUDE2]
     for spec in KERNELS2:
